@@ -47,6 +47,9 @@ class RecordingSession(ReportingSession):
         self.stream.append(canon_event(event, self.names))
         if self.fault and self.fault["at"] == idx:
             raise FAULTS[self.fault["cls"]]()
+        if self.fault and self.fault.get("again") and idx > self.fault["at"]:
+            # a backend that keeps failing: only reachable if events are still delivered after the first failure
+            raise FaultA("second-fault-at-%d" % idx)
 
 
 class RecordingBackend(ReportingBackend, ReportingSessionBuilderMixin):
